@@ -104,7 +104,8 @@ func oddPath(r *hx.Rand) string {
 // can send them like any other string.
 var hostSuffixes = []string{"", ".", "..", "...", "/", "//", "/.", "/..", "/...", "/../", "/../..", "/../../", "/../../..", "//..//..",
 	"/./../.", "/../b", "/../../b", "/../a/b", "/../../a/b", "/a/../../b", "/../secret.txt", "/../../secret.txt", "/../made", "/../../made",
-	"/a", "/a/b", "/b", "/a/..", "/a/../..", "/a/a/../../..", "/..\\..", "\\..\\..", "/../root", "/../root/b", "/../../ftp/root/b"}
+	"/a", "/a/b", "/b", "/a/..", "/a/../..", "/a/a/../../..", "/..\\..", "\\..\\..", "/../" + rootName, "/../" + rootName + "/b", "/../../ftp/" + rootName + "/b",
+	"/../" + rootName + ".old", "/../" + rootName + ".old/secret.txt", "/../" + rootName + "2/b", "/../../ftp/" + rootName + ".old/b", ".old", ".old/secret.txt", "2/b", "-"}
 
 func hostPaths(root string) []string {
 	var out []string
@@ -112,6 +113,40 @@ func hostPaths(root string) []string {
 		for _, suf := range hostSuffixes {
 			out = append(out, pre+suf)
 		}
+	}
+	return out
+}
+
+// The service root is configured (storage key fs_root), so its NAME is ours to choose - and
+// so are the names beside it.  Containment judged on text ("does the resolved path begin with
+// the root's spelling?") instead of on components cannot tell the root from a sibling whose
+// name extends the root's name; siblingNames are such entries (the last one is the other way
+// round: a proper prefix of the root's name).
+const rootName = "root"
+
+var siblingNames = []string{rootName + ".old", rootName + "2", rootName + "-", rootName[:len(rootName)-1]}
+
+// what follows the sibling's (or the root's own) name in a path
+var siblingTails = []string{"", "/b", "/a/b", "/secret.txt"}
+
+// every name of siblingTargets after k = 1..3 ".." components, absolute and relative, bare and
+// with a tail, plus spellings with an inside component in front, doubled and trailing
+// separators and a detour through the root's own name
+func siblingTargets() []string { return append(append([]string(nil), siblingNames...), rootName) }
+
+func siblingPaths() []string {
+	var out []string
+	for k := 1; k <= 3; k++ {
+		for _, name := range siblingTargets() {
+			for _, tail := range siblingTails {
+				rel := strings.Repeat("../", k) + name + tail
+				out = append(out, "/"+rel, rel)
+			}
+		}
+	}
+	for _, name := range siblingTargets() {
+		out = append(out, "/a/../../"+name+"/secret.txt", "a/../../"+name+"/b", "//..//"+name+"//secret.txt/", "/a/b/../../../"+name,
+			"/../"+rootName+"/../"+name+"/secret.txt", "/./../"+name+"/.", "/../../ftp/"+name+"/secret.txt", "/.."+"/"+name+"/../"+name+"/b")
 	}
 	return out
 }
@@ -150,7 +185,7 @@ type window struct {
 func newWindow(top string) window {
 	w := window{win: filepath.Join(top, "c11win"), abs: filepath.Join(top, "c11-host-sentinel"), cwdTop: filepath.Join(top, "c11cwd")}
 	w.base = filepath.Join(w.win, "L1", "L2")
-	w.root = filepath.Join(w.base, "ftp", "root")
+	w.root = filepath.Join(w.base, "ftp", rootName)
 	w.wd = filepath.Join(w.cwdTop, "wd")
 	return w
 }
@@ -159,17 +194,24 @@ func newWindow(top string) window {
 // an upper-case letter - nothing the harness stores inside the root does.  secret.txt files
 // have sizes (777, 1234) that no file inside the root can reach in a session of <= 10 commands
 // (uploads are < 20 or > 3000 bytes).
-func secret(tag string, n int) string {
+func secret(tag string, n int) string { return secretOver(tag, n, "QZXJKWVY") }
+
+// the same over another tail alphabet: no 4-byte piece of the tail occurs in a secret() file, so
+// a transferred piece tells which group of outside files it came from
+func secretOver(tag string, n int, alpha string) string {
 	s := "SENTINEL-" + tag + "-"
 	for len(s) < n {
-		s += "QZXJKWVY"[len(s)%8 : len(s)%8+1]
+		s += alpha[len(s)%len(alpha) : len(s)%len(alpha)+1]
 	}
 	return s
 }
 
 // The root lies four levels below the window top: <win>/L1/L2/ftp/root.  Three layouts of what
 // surrounds it (bit k of lay = present in layout k):
-//   0  same-named sentinel files and directories beside the root, in every ancestor
+//   0  same-named sentinel files and directories beside the root, in every ancestor; and beside
+//      the root entries whose NAMES extend the root's name (root.old/, root2/, the file root-)
+//      or are a proper prefix of it (roo/), holding sentinel files, a secret.txt of 901 bytes
+//      and an empty directory each
 //   1  the ancestors hold nothing but the chain down to the root (as with a single
 //      makeRoot-style root): removing the root leaves its parent empty
 //   2  every ancestor holds the chain and one EMPTY sentinel directory
@@ -206,6 +248,20 @@ var treeSpec = []struct {
 	{"L1/L2/b", false, "SENTINEL-5-QZXJ", 1},
 	{"L1/L2/secret.txt", false, secret("S2", 1234), 1},
 	{"L1/b", false, "SENTINEL-6-QZXJ", 1},
+	{"L1/L2/ftp/" + rootName + ".old", true, "", 1},
+	{"L1/L2/ftp/" + rootName + ".old/a", true, "", 1},
+	{"L1/L2/ftp/" + rootName + ".old/a/b", false, "SENTINEL-BESIDE-OLD-AB-HGFD", 1},
+	{"L1/L2/ftp/" + rootName + ".old/b", false, "SENTINEL-BESIDE-OLD-B-MNPH", 1},
+	{"L1/L2/ftp/" + rootName + ".old/secret.txt", false, secretOver("S3", 901, "HGFDMNPT"), 1},
+	{"L1/L2/ftp/" + rootName + ".old/EMPTY-d", true, "", 1},
+	{"L1/L2/ftp/" + rootName + "2", true, "", 1},
+	{"L1/L2/ftp/" + rootName + "2/b", false, "SENTINEL-BESIDE-TWO-B-GFDM", 1},
+	{"L1/L2/ftp/" + rootName + "2/secret.txt", false, secretOver("S4", 1501, "TNPMDFGH"), 1},
+	{"L1/L2/ftp/" + rootName + "2/EMPTY-d", true, "", 1},
+	{"L1/L2/ftp/" + rootName + "-", false, "SENTINEL-BESIDE-DASH-FDMN", 1},
+	{"L1/L2/ftp/" + rootName[:len(rootName)-1], true, "", 1},
+	{"L1/L2/ftp/" + rootName[:len(rootName)-1] + "/b", false, "SENTINEL-SHORTER-B-UYAE", 1},
+	{"L1/L2/ftp/" + rootName[:len(rootName)-1] + "/secret.txt", false, secretOver("S5", 2002, "BCORUYAE"), 1},
 	{"L1/L2/ftp/EMPTY-SENTINEL", true, "", 4},
 	{"L1/L2/EMPTY-SENTINEL", true, "", 4},
 	{"L1/EMPTY-SENTINEL", true, "", 4},
@@ -448,7 +504,7 @@ type HObs struct {
 }
 
 func runHtfs(w window, in Input) ([]HObs, string) {
-	fs, err := filesystem.New(w.base, "ftp", "root")
+	fs, err := filesystem.New(w.base, "ftp", rootName)
 	if err != nil {
 		hx.Fatal("filesystem.New: %v", err)
 	}
@@ -552,6 +608,7 @@ func main() {
 	search := o.Tier == "search"
 	all := enumPaths(5)
 	host := hostPaths(w.root)
+	sibs := siblingPaths()
 
 	// ---------- lib ----------
 	if replay == nil || replay.Part == "lib" {
@@ -576,6 +633,17 @@ func main() {
 			}
 			for i, p := range backslashPaths {
 				ins = append(ins, Input{Part: "lib", P: hx.B(p), Q: hx.B([]string{"/", w.root, "/a"}[i%3])})
+			}
+			// names that extend the root's name after 1..3 ".." components: joined onto the root as
+			// the client spells them, and - what RealPath does - cleaned first (rooted at "/" or at
+			// a working directory) and then joined onto the root
+			for i, p := range sibs {
+				ins = append(ins, Input{Part: "lib", P: hx.B(p), Q: hx.B(w.root)})
+				c := filepath.Join(cwds[i%len(cwds)], p)
+				if filepath.IsAbs(p) {
+					c = filepath.Clean(p)
+				}
+				ins = append(ins, Input{Part: "lib", P: hx.B(c), Q: hx.B(w.root)})
 			}
 			n := 150
 			if search {
@@ -631,6 +699,12 @@ func main() {
 				c := cwds[i%len(cwds)]
 				ins = append(ins, Input{Part: "htfs", Ops: []Op{{V: "real", P: hx.B(p)}, {V: "cd", P: hx.B(c)}, {V: "real", P: hx.B(p)}, {V: "cd", P: hx.B(p)}, {V: "real", P: hx.B("")}, {V: "real", P: hx.B("../b")}}})
 			}
+			// siblings whose names extend the root's name: resolved from "/" and from a sub-directory,
+			// entered, and resolved again from wherever the session then is
+			for i, p := range sibs {
+				c := cwds[i%len(cwds)]
+				ins = append(ins, Input{Part: "htfs", Ops: []Op{{V: "real", P: hx.B(p)}, {V: "cd", P: hx.B(p)}, {V: "real", P: hx.B("")}, {V: "cd", P: hx.B(c)}, {V: "real", P: hx.B(p)}, {V: "cd", P: hx.B(p)}, {V: "real", P: hx.B("b")}}})
+			}
 			n := 150
 			if search {
 				n = 500
@@ -651,6 +725,8 @@ func main() {
 						p = host[r.Intn(len(host))]
 					} else if r.Chance(1, 12) {
 						p = backslashPaths[r.Intn(len(backslashPaths))]
+					} else if r.Chance(1, 10) {
+						p = sibs[r.Intn(len(sibs))]
 					}
 					v := "cd"
 					if r.Chance(1, 3) {
